@@ -50,7 +50,10 @@ type cVal struct {
 type cEnv struct {
 	vars   map[types.Object]cVal
 	parent *cEnv
+	frame  int // non-zero: the root scope of an inlined method (identifies it across clones)
 }
+
+var frameCtr int
 
 func (e *cEnv) get(o types.Object) (cVal, bool) {
 	for x := e; x != nil; x = x.parent {
@@ -75,7 +78,7 @@ func (e *cEnv) cloneDeep() *cEnv {
 	if e == nil {
 		return nil
 	}
-	n := &cEnv{vars: map[types.Object]cVal{}, parent: e.parent.cloneDeep()}
+	n := &cEnv{vars: map[types.Object]cVal{}, parent: e.parent.cloneDeep(), frame: e.frame}
 	for k, v := range e.vars {
 		n.vars[k] = v
 	}
@@ -127,6 +130,7 @@ type compModel struct {
 	emits  map[string]int // opcode -> number of emission sites
 	obs    []compOb
 	inlinedOnly []string // helper methods verified only where they are called
+	recvObjs map[*types.Var]bool // the receiver variables of the methods of type compiler
 	recs   []emitRec // every emission of a known opcode, with what its path knows
 }
 
@@ -215,6 +219,21 @@ type cWalker struct {
 	pathTag string
 }
 
+// isRecv: the identifier denotes the compiler being walked: the receiver of the method under the walker, or (inside
+// a closure handed to an inlined helper) the receiver of the method that built the closure - there is one compiler
+// per walk, calls on anything else are not evaluated in place (see notInlined).
+func (w *cWalker) isRecv(id *ast.Ident) bool {
+	o := w.m.info.Uses[id]
+	if o == nil {
+		return false
+	}
+	if o == w.recv {
+		return true
+	}
+	v, ok := o.(*types.Var)
+	return ok && !v.IsField() && w.m.recvObjs[v]
+}
+
 func (m *compModel) issue(format string, args ...interface{}) {
 	m.issues = append(m.issues, fmt.Sprintf(format, args...))
 }
@@ -298,6 +317,14 @@ func buildCompModel(c *Ctx) *compModel {
 			if all {
 				prim[callee] = true
 				changed = true
+			}
+		}
+	}
+	m.recvObjs = map[*types.Var]bool{}
+	for _, fd := range c.allFuncDecls("internal/compiler") {
+		if fd.Recv != nil && recvTypeName(fd.Recv.List[0].Type) == "compiler" && len(fd.Recv.List[0].Names) > 0 {
+			if v, ok := m.info.Defs[fd.Recv.List[0].Names[0]].(*types.Var); ok {
+				m.recvObjs[v] = true
 			}
 		}
 	}
@@ -594,6 +621,9 @@ func (w *cWalker) stmt(s ast.Stmt, st *cState) []*cState {
 						if b, isB := t.Underlying().(*types.Basic); isB && b.Info()&types.IsInteger != 0 {
 							v = cVal{k: cvLin, lin: linC(0)}
 						}
+						if _, isFn := t.Underlying().(*types.Signature); isFn {
+							v = cVal{k: cvNil} // the zero value of a function variable
+						}
 						x.env.vars[info.Defs[nm]] = v
 						next = append(next, x)
 					}
@@ -878,6 +908,8 @@ func (w *cWalker) litOf(a cVal, rel string, b cVal) (Lit, bool) {
 			return v.c, true
 		case cvNil:
 			return nilVal, true
+		case cvClosure:
+			return nilVal + 1, true // a function literal is never nil
 		case cvLin:
 			if v.lin.IsConst() {
 				return int64(v.lin.C), true
@@ -1202,7 +1234,7 @@ func (w *cWalker) emitting(n ast.Node) bool {
 	ast.Inspect(n, func(x ast.Node) bool {
 		if call, ok := x.(*ast.CallExpr); ok {
 			if se, ok := call.Fun.(*ast.SelectorExpr); ok {
-				if id, ok := se.X.(*ast.Ident); ok && w.m.info.Uses[id] == w.recv && w.recv != nil {
+				if id, ok := se.X.(*ast.Ident); ok && w.isRecv(id) {
 					found = true
 				}
 			}
@@ -1621,7 +1653,7 @@ func (w *cWalker) assign(s *ast.AssignStmt, st *cState) []*cState {
 					}
 				case *ast.SelectorExpr:
 					// c.breaks = append(c.breaks, ...) etc: loop frame bookkeeping
-					if id, ok := l.X.(*ast.Ident); ok && info.Uses[id] == w.recv && (l.Sel.Name == "breaks" || l.Sel.Name == "continues") {
+					if id, ok := l.X.(*ast.Ident); ok && w.isRecv(id) && isLoopStackType(info.TypeOf(l)) && isAppendCall(rhs) {
 						r.st.inLoop = true
 					}
 				case *ast.IndexExpr:
@@ -2114,7 +2146,7 @@ func (w *cWalker) call(x *ast.CallExpr, st *cState) []cRes {
 	}
 	se, isSel := x.Fun.(*ast.SelectorExpr)
 	if isSel {
-		if id, ok := se.X.(*ast.Ident); ok && info.Uses[id] == w.recv && w.recv != nil {
+		if id, ok := se.X.(*ast.Ident); ok && w.isRecv(id) {
 			return w.compilerCall(se.Sel.Name, x, st)
 		}
 	}
@@ -2288,21 +2320,27 @@ func (w *cWalker) compilerCall(name string, x *ast.CallExpr, st *cState) []cRes 
 		return one(st, cVal{k: cvOpaque})
 	}
 	for _, a := range w.evalArgs(x.Args, st) {
-		child := &cEnv{vars: map[types.Object]cVal{}, parent: nil}
+		// the frame of the inlined method hangs below the caller's, so that a closure built by the caller and called
+		// by the helper still finds (and updates) the caller's variables; variables are keyed by their declaration,
+		// so the helper's own names never resolve to the caller's
+		frameCtr++
+		child := &cEnv{vars: map[types.Object]cVal{}, parent: a.st.env, frame: frameCtr}
 		i := 0
 		for _, f := range fd.Type.Params.List {
 			for _, nm := range f.Names {
 				if i < len(a.vs) {
 					child.vars[m.info.Defs[nm]] = a.vs[i]
+				} else {
+					child.vars[m.info.Defs[nm]] = cVal{k: cvOpaque}
 				}
 				i++
 			}
 		}
+		fid := child.frame
 		sub := &cWalker{m: m, method: w.method, depth: w.depth + 1}
 		if fd.Recv != nil && len(fd.Recv.List[0].Names) > 0 {
 			sub.recv = m.info.Defs[fd.Recv.List[0].Names[0]]
 		}
-		callerEnv := a.st.env
 		a.st.env = child
 		savedRet, savedReturned := a.st.retVal, a.st.returned
 		a.st.retVal, a.st.returned = nil, false
@@ -2313,10 +2351,20 @@ func (w *cWalker) compilerCall(name string, x *ast.CallExpr, st *cState) []cRes 
 				out = append(out, cRes{r, cVal{k: cvOpaque}})
 				continue
 			}
-			r.env = callerEnv.cloneDeep()
+			rv := cVal{k: cvOpaque}
+			if r.retVal != nil {
+				rv = *r.retVal
+			}
+			// drop the helper's frame: back to the caller's environment as this path left it
+			for e := r.env; e != nil; e = e.parent {
+				if e.frame == fid {
+					r.env = e.parent
+					break
+				}
+			}
 			r.retVal, r.returned = savedRet, savedReturned
 			w.tr(r, ")")
-			out = append(out, cRes{r, cVal{k: cvOpaque}})
+			out = append(out, cRes{r, rv})
 		}
 	}
 	return out
@@ -2787,4 +2835,26 @@ func argsBounds(info *types.Info, e ast.Expr, body []ast.Stmt) (int, int) {
 	}
 	walk(body, false, false)
 	return lo, hi
+}
+
+// isLoopStackType: a slice whose elements are slices, structs or pointers (the per-loop bookkeeping of the compiler;
+// R-LOOPSTACK checks that it balances).
+func isLoopStackType(t types.Type) bool {
+	if t == nil {
+		return false
+	}
+	sl, ok := t.Underlying().(*types.Slice)
+	if !ok {
+		return false
+	}
+	switch sl.Elem().Underlying().(type) {
+	case *types.Slice, *types.Struct, *types.Pointer:
+		return true
+	}
+	return false
+}
+
+func isAppendCall(e ast.Expr) bool {
+	call, ok := e.(*ast.CallExpr)
+	return ok && isIdent(call.Fun, "append")
 }
